@@ -5,11 +5,11 @@
  * Contract (specs/c16_ba_mem_is_zero.h, from its documentation "Return 1 if @mem is zeroed memory, otherwise
  * return 0"):
  *   returns 1 or 0;
- *   returns 1  =>  every byte of mem[0..len) is 0        (stated for the ghost byte address verif_p1)
- *   returns 0  =>  some byte of mem[0..len) is not 0     (witness address in the ghost verif_p2, produced by the
+ *   returns 1  =>  every byte of mem[0..len) is 0        (stated for the ghost byte at object offset verif_g3)
+ *   returns 0  =>  some byte of mem[0..len) is not 0     (witness offset in the ghost verif_g4, produced by the
  *                  memcmp model: Skolem form of "memcmp != 0 => a differing byte exists")
  *   reads only mem[0..len) (bounds checks on; the buffer is allocated with exactly len bytes after the
- *   misalignment prefix), writes nothing but the ghost verif_p2.
+ *   misalignment prefix), writes nothing but the ghost verif_g4.
  * The 256-byte chunk loop carries an in-place loop contract (hooks-pending/ba.diff; it uses __CPROVER_loop_entry for
  * the entry values of mem and len); libc memcmp is replaced by the pointwise model in specs/c16_ba_memcmp.h.
  * The harness additionally runs the function on an all-zero buffer (calloc) of arbitrary length/alignment and demands
@@ -42,8 +42,8 @@ struct in_miz IN;
 #include "verif_in.h"
 
 unsigned long long verif_k;	/* unused here */
-const unsigned char *verif_p1;	/* ghost: address of one arbitrary byte */
-const unsigned char *verif_p2;	/* ghost: witness published by the memcmp model */
+unsigned long long verif_g3;	/* ghost: object offset of one arbitrary byte */
+unsigned long long verif_g4;	/* ghost: object offset of the witness published by the memcmp model */
 
 #include "c16_ba_memcmp.h"
 #include "c16_ba_mem_is_zero.h"
@@ -63,8 +63,10 @@ void h_mem_is_zero(void)
 		raw[j] = IN.zero ? 0 : IN.fill[j & 7];
 #endif
 	char *mem = raw + IN.misalign;
-	verif_p1 = (const unsigned char *)mem + IN.k;
-	verif_p2 = 0;
+#ifndef VERIF_NATIVE
+	verif_g3 = C16_OFF(mem) + IN.k;
+	verif_g4 = 0;
+#endif
 	int r = ext2fs_mem_is_zero(mem, IN.len);
 	CHECK(r == 0 || r == 1, "mem_is_zero: returns 0 or 1");
 	if (r) {
@@ -72,7 +74,7 @@ void h_mem_is_zero(void)
 		REACH("one");
 	} else {
 #ifndef VERIF_NATIVE
-		CHECK(verif_p2 >= (const unsigned char *)mem && verif_p2 < (const unsigned char *)mem + IN.len && *verif_p2 != 0,
+		CHECK(C16_IDX(verif_g4, mem) < IN.len && mem[C16_IDX(verif_g4, mem)] != 0,
 		      "mem_is_zero: answer 0 only if a non-zero byte exists (witness)");
 #endif
 		REACH("zero");
